@@ -46,6 +46,8 @@ type caseT struct {
 	Acc     bool     `json:"acc"`
 	NoCfg   bool     `json:"nocfg"`
 	Docs    []docT   `json:"docs"`
+	Pre     string   `json:"pre_hex"` // a path parsed (result ignored) right before the case: ambient history
+	Alias   bool     `json:"alias"`   // build equal sub-containers of a document as ONE shared Go object
 	Ops     []opT    `json:"ops"`
 	// conc
 	Threads int `json:"threads"`
@@ -88,6 +90,8 @@ func main() {
 		t := fs.Int("t", 10000, "per-case timeout in ms")
 		fs.Parse(os.Args[2:])
 		master(*j, time.Duration(*t)*time.Millisecond)
+	case "coldchild":
+		coldChild()
 	case "oracle":
 		oracle()
 	case "kinds":
@@ -108,6 +112,7 @@ func worker() {
 			if e := json.Unmarshal(line, &c); e != nil {
 				fmt.Fprintf(out, "?\tRUNNER_ERROR=%s\n", hx(e.Error()))
 			} else {
+				ambientHistory()
 				fmt.Fprintln(out, runCase(&c))
 			}
 			out.Flush()
